@@ -388,6 +388,12 @@ pub fn gen_foreign(rng: &mut Rng, n: usize) -> Vec<Foreign> {
 
 /// Generates a case adaptively: each op is chosen after the previous ones ran.
 pub fn generate(seed: u64, profile: Profile, buggify: bool, n_foreign: usize) -> (Case, Driver) {
+    generate_with(seed, profile, buggify, n_foreign, profile == Profile::IdleQueues)
+}
+
+/// `lenient`: the driver does not stop at a divergence from the reference model (the model is re-based
+/// on what the log shows), for checks whose oracle does not use the model.
+pub fn generate_with(seed: u64, profile: Profile, buggify: bool, n_foreign: usize, lenient: bool) -> (Case, Driver) {
     let mut rng = Rng::new(seed);
     let cfg = swarm(&mut rng, profile);
     let policy = pick_policy(&mut rng, profile);
@@ -396,7 +402,7 @@ pub fn generate(seed: u64, profile: Profile, buggify: bool, n_foreign: usize) ->
     let foreign = if n_foreign > 0 { gen_foreign(&mut rng, n_foreign) } else { Vec::new() };
     let mut case = Case { names, policy, knobs, foreign, probe_seed: rng.next_u64(), ops: Vec::new() };
     let mut driver = Driver::new(&case);
-    driver.lenient = profile == Profile::IdleQueues;
+    driver.lenient = lenient;
     let mut g = Gen::new(cfg.clone(), rng.fork(1));
     let first = Op::Restart { policy: None };
     case.ops.push(first.clone());
